@@ -330,6 +330,7 @@ def observe(seed, tier):
                     fnm = [re.match(r"func (Flow\d+)\(", x).group(1) for x in lines if re.match(r"func (Flow\d+)\(", x)]
                     if fnm:
                         culprits.append(fnm[-1])
+            summary["culprits"] = sorted(set(culprits))
             byname = {f.name(): f for f in flows}
             msg = (errs[0].split(": ", 1)[-1] if errs else (o + e).strip().split("\n")[-1])[:200]
             hit("C13", "the generated package does not type-check without the cff tag: %s" % msg,
@@ -347,6 +348,20 @@ def observe(seed, tier):
             f.bare, f.clock = False, False
         summary["plain_fallback"] = True
         mod, gdir = prepare("-plain")
+    # generated functions that do not compile: leave them out (the failure stays reported) so that
+    # the rest of the package can still be executed and a concrete failing input be searched for
+    tries = 0
+    while summary["cff_ok"] and not summary["build_ok"] and summary.get("culprits") and tries < 8:
+        drop = set(summary["culprits"])
+        keep = [f for f in flows if f.name() not in drop]
+        if not keep or len(keep) == len(flows):
+            break
+        summary["build_failed"] = True
+        summary.setdefault("dropped_uncompilable", []).extend(sorted(drop))
+        flows[:] = keep
+        summary["culprits"] = []
+        tries += 1
+        mod, gdir = prepare("-less%d" % tries)
     gotext = {}
     if summary["cff_ok"]:
         for fn in sorted(os.listdir(gdir)):
@@ -546,7 +561,7 @@ def apply(chk, pid):
             chk.fail_no_input("correspondence job-graph(generated code) = jdeps(model) no longer holds: " + h["what"], {"correspondence": "job graph", "detail": h["payload"]})
     for h in s["hits"].get("MODEL", [])[:1]:
         chk.fail_no_input("the two Coq models of a Flow disagree with each other: " + h["what"], {"theorem": "FlowOpModel vs FlowSemModel (extracted)", "detail": h["payload"]})
-    if pid != "C13" and not (s["cff_ok"] and s["build_ok"]):
+    if pid != "C13" and (not (s["cff_ok"] and s["build_ok"]) or s.get("build_failed")):
         chk.fail_no_input("correspondence generated-code/FlowSemModel could not run: the generated package was not produced or does not build",
                           {"correspondence": "generated_flows", "hits": s["hits"].get("C13", [])[:1]})
     return s
